@@ -1371,6 +1371,64 @@ def _conv_integer(ins, attrs, ctx):
     return [SV(_conv_arr(X, W, None, attrs, "i"), DT.INT32)]
 
 
+def _round_half_even_int(r):
+    """real (Fraction or z3 Real) -> integer (int or z3 Int), ties to even"""
+    if not is_sym(r):
+        fr = Fraction(r)
+        fl = fr.__floor__()
+        d = fr - fl
+        if d > Fraction(1, 2) or (d == Fraction(1, 2) and fl % 2 == 1):
+            return fl + 1
+        return fl
+    fl = z3.ToInt(r)
+    d = r - z3.ToReal(fl)
+    return z3.If(d > z3.RealVal("1/2"), fl + 1, z3.If(z3.And(d == z3.RealVal("1/2"), fl % 2 == 1), fl + 1, fl))
+
+
+@op("QLinearConv")
+def _qlinear_conv(ins, attrs, ctx):
+    """y = saturate(round_half_even(conv(x - x_zp, w - w_zp) [+ B]) * x_scale * w_scale / y_scale) + y_zp); scales must be concrete"""
+    if len(ins) < 8:
+        raise Bottom("QLinearConv inputs")
+    x, xs, xz, w, ws, wz, ys, yz = ins[:8]
+    b = ins[8] if len(ins) > 8 and ins[8] is not None else None
+    for t in (x, w, xz, wz, yz):
+        if t.dtype not in (DT.UINT8, DT.INT8):
+            raise Bottom("QLinearConv quantized type")
+    if x.dtype != xz.dtype or w.dtype != wz.dtype:
+        raise Bottom("QLinearConv zero point type")
+    for t in (xs, ws, ys):
+        if not t.is_concrete():
+            raise NotEncoded("QLinearConv with a symbolic scale")
+    if xs.arr.size != 1 or ys.arr.size != 1 or xz.arr.size != 1 or yz.arr.size != 1:
+        raise Bottom("QLinearConv per-tensor parameters")
+    M = w.arr.shape[0]
+    if ws.arr.size not in (1, M) or wz.arr.size not in (1, M):
+        raise Bottom("QLinearConv per-channel parameter shape")
+    zx = xz.arr.reshape(-1)[0]
+    X = ew(lambda u: e_sub(u, zx, "i"), x.arr)
+    W = w.arr.copy()
+    for idx in np.ndindex(*W.shape):
+        W[idx] = e_sub(W[idx], wz.arr.reshape(-1)[idx[0] if wz.arr.size > 1 else 0], "i")
+    if b is not None and (b.dtype != DT.INT32 or b.shape != (M,)):
+        raise Bottom("QLinearConv bias")
+    acc = _conv_arr(X, W, None if b is None else b.arr, attrs, "i")
+    lo, hi = (0, 255) if yz.dtype == DT.UINT8 else (-128, 127)
+    zy = yz.arr.reshape(-1)[0]
+    out = np.empty(acc.shape, dtype=object)
+    for idx in np.ndindex(*acc.shape):
+        sc = Fraction(xs.arr.reshape(-1)[0]) * Fraction(ws.arr.reshape(-1)[idx[1] if ws.arr.size > 1 else 0]) / Fraction(ys.arr.reshape(-1)[0])
+        a = acc[idx]
+        r = (z3.ToReal(a) * Z(sc, "f")) if is_sym(a) else Fraction(a) * sc
+        q = e_add(_round_half_even_int(r), zy, "i")
+        if is_sym(q):
+            q = z3.If(q < lo, lo, z3.If(q > hi, hi, q))
+        else:
+            q = max(lo, min(hi, q))
+        out[idx] = q
+    return [SV(out, yz.dtype)]
+
+
 @op("Conv")
 def _conv(ins, attrs, ctx):
     x, w = ins[0], ins[1]
